@@ -289,7 +289,7 @@ func randRemoveHistory(r *rand.Rand, doc *Node) []Op {
 			op.Op = "set"
 			op.Path = pick()
 			op.Val, op.ValMode = randSetValue(r, !op.Path.definite(), false)
-			if op.ValMode == "text" {
+			if op.ValMode == "text" || op.ValMode == "stream" {
 				op.Op = "parse"
 			}
 			if res, st, _, _ := modelSet(cur, op.Path, op.Val); st == stOK {
